@@ -218,6 +218,7 @@ class Check:
         self.traces = 0
         self.assumptions = []
         self.notes = {}
+        self.beyond_obs = {}
         self.rule = ''
         self.rng = random.Random(seed())
         shutil.rmtree(os.path.join(VERIF, 'replays', pid), True)      # replay files of earlier runs
@@ -249,8 +250,16 @@ class Check:
         self.violations.append({'key': key, 'what': what, 'case': case})
         return True
 
+    def beyond(self, name, what):
+        """A disagreement with a part of the specification that is NOT covered by the statement of any listed property
+        (specification growth, DESIGN section 7).  Reported and recorded in the evidence; never an alarm."""
+        h = self.beyond_obs.setdefault(name, {'n': 0, 'example': what})
+        h['n'] += 1
+
     def finish(self, extra_cov=None):
         wall = round(time.time() - self.t0, 2)
+        for name, h in sorted(self.beyond_obs.items()):
+            print('NOTE: beyond the listed properties (no alarm): %s [%d occurrences, e.g. %s]' % (name, h['n'], str(h['example'])[:300]))
         for key, h in sorted(self.known_hits.items()):
             print('KNOWN-FINDING: property=%s key=%s %s [%d occurrences, e.g. %s]' % (
                 self.pid, key, self.known[key].get('what', ''), h['n'], str(h['example'])[:300]))
@@ -300,6 +309,8 @@ class Check:
             'exhaustive': False,
         }
         cov.update(self.notes)
+        if self.beyond_obs:
+            cov['beyond_property_observations'] = self.beyond_obs
         if extra_cov:
             cov.update(extra_cov)
         ev = {'property_id': self.pid, 'tier': tier(), 'seed': seed(), 'level': self.level, 'coverage': cov,
